@@ -39,6 +39,9 @@ def initial(nlines=6, with_empty=False, with_spacey=False):
     m = Model()
     for f in FILES:
         m.t[f] = ([('%s%d' % (f.replace('/', '_'), i)).encode() for i in range(nlines)], 0o644)
+    # modes other than what a newly created file gets: preserving them is part of "the tree equals ..."
+    m.t['d/h'] = (m.t['d/h'][0], 0o755)
+    m.t['e/i'] = (m.t['e/i'][0], 0o600)
     if with_empty:
         m.t['z'] = ([], 0o644)   # a zero-length source file
     if with_spacey:
